@@ -58,7 +58,7 @@ func runC05(r *Report) {
 			switch x := in.(type) {
 			case *ssa.MakeSlice:
 				size, what = x.Len, "make"
-				if _, isC := ConstInt(x.Cap); !isC && wireDerived(x.Cap) != nil {
+				if _, isC := ConstInt(x.Cap); !isC && (wireDerived(x.Cap) != nil || x.Cap != x.Len) {
 					size = x.Cap
 				}
 			case *ssa.Call:
@@ -74,11 +74,19 @@ func runC05(r *Report) {
 			}
 			p := wireDerived(size)
 			if p == nil {
+				// a size computed in place (an estimate, a helper's result, a decoded field): it must be
+				// bounded by a constant or by the data already held, and cannot be negative
+				okb := allocBounded(r.P, in.Block(), size, 2, map[ssa.Value]bool{})
+				r.Ob("R-C05-1", in.Pos(), okb, what+" sized by a computed value ("+originSummary(size)+") is bounded by a constant or by the amount of data already received", r.P.FuncName(g), "alloc-computed-bounded:"+what)
 				return
 			}
 			ok := sizeBounded(r.P, in.Block(), size, 2)
 			r.Ob("R-C05-1", in.Pos(), ok, fmt.Sprintf("%s sized by wire-derived parameter %q must be dominated by an upper-bound comparison against a constant", what, p.Name()),
 				r.P.FuncName(g), "alloc-by:"+p.Name())
+			if ok {
+				r.Ob("R-C05-1", in.Pos(), nonNegative(r.P, in.Block(), size, 2, map[ssa.Value]bool{}), fmt.Sprintf("%s size %q cannot be negative (unsigned, a length, or compared with zero): an upper bound alone admits a decoded length with the top bit set", what, p.Name()),
+					r.P.FuncName(g), "alloc-nonneg:"+p.Name())
+			}
 		})
 	}
 	r.Floor("R-C05-1", 1, "wire-sized allocation in the packet reader")
